@@ -16,9 +16,9 @@ func TestC34(t *testing.T) {
 		"(upper/mixed-case hex, uncompressed encoding of the same key) in every node operation; plus nine directed spelling scenarios. After EVERY operation: " +
 		">= 4 distinct active keys, no key (compared as decoded public key) in two entries, distinct keys <-> distinct indices, no successful registration of a blacklisted key; " +
 		"at every view change: view+1, active -> consensus, quitting/black dropped, not twice at one height; pool == model pool. Distinct = (op kind, success, epoch, pool size, generator tag) and approval fingerprints")
-	cfg := govmodel.Config{Property: "C34", Histories: r.N(260, 4000), Ops: r.N(80, 120), MinN: 4, MaxN: r.N(10, 25),
+	cfg := govmodel.Config{Property: "C34", Histories: r.N(260, 12000), Ops: r.N(80, 120), MinN: 4, MaxN: r.N(10, 25),
 		Wt:         govmodel.Weights{Node: 6, SideChain: 1, Relayer: 0, Neo3: 0, SecondRound: 10},
-		HostilePct: 25, Scripts: govmodel.HostileScripts(), ScriptReps: r.N(5, 40), RealSig: true}
+		HostilePct: 25, Scripts: govmodel.HostileScripts(), ScriptReps: r.N(5, 80), RealSig: true}
 	govmodel.Run(r, cfg)
 	r.Require("epoch_changes", r.N(300, 4000))
 	r.Require("effect@approveCandidate", r.N(100, 1500))
